@@ -137,6 +137,11 @@ func genC03(o *hx.Out, tier string) {
 			for _, v2 := range []bool{true, false} {
 				w := implWriteMsg(mrw, m, v2)
 				o.Add("encode", w, "mwrite", gs, b2s(v2), hx.Value(m))
+				if len(w) > 3 {
+					// the same payload kept as the codec returned it and rendered later
+					kept := mrw.Write(m, v2)
+					o.AddLater("encode, rendered later", func() string { return "ok " + hx.Hex(kept.Payload) }, "mwrite", gs, b2s(v2), hx.Value(m))
+				}
 				// decoding reads the same layout: decode what was encoded, and a random
 				// payload of the full size
 				if len(w) > 3 {
